@@ -548,9 +548,13 @@ func quoteIdentifier(sb *strings.Builder, name string) {
 
 	sb.WriteString(`"`)
 	for _, b := range []byte(name) {
-		if b == '"' {
+		switch b {
+		case '"':
 			sb.WriteString(quoteEscape)
-		} else {
+		case '\\':
+			// ClickHouse reads a backslash inside quotes as an escape character.
+			sb.WriteString(`\\`)
+		default:
 			sb.WriteByte(b)
 		}
 	}
@@ -1071,9 +1075,13 @@ func writeToUpperFunction(ctx *exprContext, sb *strings.Builder, x *parser.CallE
 func quoteSQLString(sb *strings.Builder, s string) {
 	sb.WriteString("'")
 	for _, b := range []byte(s) {
-		if b == '\'' {
+		switch b {
+		case '\'':
 			sb.WriteString("''")
-		} else {
+		case '\\':
+			// ClickHouse reads a backslash inside quotes as an escape character.
+			sb.WriteString(`\\`)
+		default:
 			sb.WriteByte(b)
 		}
 	}
